@@ -97,12 +97,15 @@ class SFlags(object):
 
 
 class SDateTime(object):
-    """datetime as an abstract instant: seconds since the epoch (Int), microseconds (Int), tz-aware or naive (utc)"""
+    """datetime as an abstract instant: seconds since the epoch (Int), microseconds (Int), tz-aware or naive (utc);
+    `off` is the UTC offset in seconds of an aware value (its wall-clock fields are those of secs + off); a naive value is
+    read as UTC (off = 0)"""
 
-    def __init__(self, secs, micros=None, aware=False):
+    def __init__(self, secs, micros=None, aware=False, off=None):
         self.secs = secs
         self.micros = micros if micros is not None else z3.IntVal(0)
         self.aware = aware
+        self.off = off if off is not None else z3.IntVal(0)
 
 
 class SText(object):
